@@ -3742,9 +3742,10 @@ impl CanonicalizeContext {
 				new_current_child = mrow;	
 				let children = mrow.children();
 				// debug!("looking for left fence: len={}, {:#?}", children.len(), self.find_operator(as_element(children[0]),None, None, Some(as_element(children[1])) ));
-				if children.len() == 2 && (name(&as_element(children[0])) != "mo" ||
-				   !CanonicalizeContext::find_operator(Some(self), as_element(children[0]),
-								Some(&LEFT_FENCEPOST), Some(as_element(children[0])), Some(mrow) ).is_left_fence()) {
+				let first_child = get_possible_embellished_node(as_element(children[0]));	// the open fence might carry a script or a limit
+				if children.len() == 2 && (name(&first_child) != "mo" ||
+				   !CanonicalizeContext::find_operator(Some(self), first_child,
+								Some(&LEFT_FENCEPOST), Some(first_child), Some(mrow) ).is_left_fence()) {
 					// the mrow did *not* start with an open (hence no push)
 					// since parser really wants balanced parens to keep stack state right, we do a push here
 					parse_stack.push( StackInfo::new(mrow.document()) );
